@@ -413,7 +413,11 @@ func (mr *msgReader) Read(p []byte) (n int, err error) {
 		p = p[:n]
 		mr.dict.write(p)
 	}
-	if errors.Is(err, io.EOF) || errors.Is(err, io.ErrUnexpectedEOF) && mr.fin && mr.flate {
+	// The end of a message is signalled with the bare io.EOF (or, by flate once the final
+	// frame has been consumed, the bare io.ErrUnexpectedEOF). Errors from the underlying
+	// connection are always wrapped and must not be mistaken for it, even when they wrap
+	// io.EOF: that is a connection cut in the middle of a message.
+	if err == io.EOF || err == io.ErrUnexpectedEOF && mr.fin && mr.flate {
 		mr.putFlateReader()
 		return n, io.EOF
 	}
